@@ -187,10 +187,14 @@ func mlNormal(es []mlEntry) []mlEntry {
 
 // mlDiff names the first difference between two sorted entry lists
 func mlDiff(want, have []mlEntry) (what, text string) {
-	idx := func(es []mlEntry) map[string]mlEntry {
-		m := map[string]mlEntry{}
+	type key struct {
+		k   string
+		uid uint32
+	}
+	idx := func(es []mlEntry) map[key]mlEntry {
+		m := make(map[key]mlEntry, len(es))
 		for _, e := range es {
-			m[fmt.Sprintf("%s/%d", e.K, e.Uid)] = e
+			m[key{e.K, e.Uid}] = e
 		}
 		return m
 	}
@@ -285,47 +289,57 @@ func (c *mlCtx) lookups(r *mlRow) {
 	for _, e := range mo {
 		byID[fmt.Sprintf("%s/%d", e.K, e.Uid)] = e
 	}
+	fn := map[string]string{"m": "MethodID", "s": "SignalID", "p": "PropertyID"}
+	type state struct {
+		allowed      map[mlAns]bool
+		intent       mlAns
+		seen         map[mlAns]int
+		exact, named []mlEntry
+		reported     map[string]bool
+	}
+	sts := make([]state, len(r.Lookups))
 	for li := range r.Lookups {
 		l := &r.Lookups[li]
-		own := r.Wf && l.Self
-		kind := mlKindName[l.K]
-		allowed := map[mlAns]bool{}
+		st := state{allowed: map[mlAns]bool{}, seen: map[mlAns]int{}, reported: map[string]bool{}, intent: l.Intent}
 		for _, a := range l.Code {
 			a.Ret = mlSig(a.Ret)
-			allowed[a] = true
+			st.allowed[a] = true
 		}
-		intent := l.Intent
-		intent.Ret = mlSig(intent.Ret)
-		seen := map[mlAns]int{}
-		var exact, named []mlEntry
+		st.intent.Ret = mlSig(st.intent.Ret)
 		for _, e := range mo {
 			if e.K == l.K && e.Name == l.Name {
-				named = append(named, e)
+				st.named = append(st.named, e)
 				if e.Sig == l.Sig {
-					exact = append(exact, e)
+					st.exact = append(st.exact, e)
 				}
 			}
 		}
-		reported := map[string]bool{}
-		for rep := 0; rep < c.reps; rep++ {
-			m := mlBuild(mo, c.rnd)
+		sts[li] = st
+	}
+	want := mlNormal(mo)
+	for rep := 0; rep < c.reps; rep++ {
+		// a fresh copy for every repetition (another insertion order; every walk of a Go map starts somewhere else)
+		m := mlBuild(mo, c.rnd)
+		for li := range r.Lookups {
+			l, st := &r.Lookups[li], &sts[li]
+			own := r.Wf && l.Self
+			kind := mlKindName[l.K]
 			a, pn := mlAsk(&m, l.K, l.Name, l.Sig)
 			c.st["lookups"]++
-			cs := c.rowCase(r, map[string]interface{}{"ctx": "lookup", "query": l})
 			if pn != "" {
-				if !reported["panics"] {
-					c.j.fail(mlScope(own)+kind+"-lookup/panics", pn, cs)
-					reported["panics"] = true
+				if !st.reported["panics"] {
+					c.j.fail(mlScope(own)+kind+"-lookup/panics", pn, c.rowCase(r, map[string]interface{}{"ctx": "lookup", "query": l}))
+					st.reported["panics"] = true
 				}
 				continue
 			}
-			seen[a]++
-			if allowed[a] {
+			st.seen[a]++
+			if st.allowed[a] {
 				continue
 			}
 			what := "answers-unexpected-id"
 			switch {
-			case a.E != "ok" && len(exact) > 0:
+			case a.E != "ok" && len(st.exact) > 0:
 				what = "own-signature-not-found"
 			case a.E != "ok" && l.Code[0].E == "ok":
 				what = "error-instead-of-the-fallback"
@@ -338,52 +352,62 @@ func (c *mlCtx) lookups(r *mlRow) {
 					what = "answers-an-id-without-entry"
 				case e.Name != l.Name:
 					what = "answers-another-name"
-				case len(exact) > 0 && e.Sig != l.Sig:
+				case len(st.exact) > 0 && e.Sig != l.Sig:
 					what = "exact-match-passed-over"
-				case len(exact) > 1:
+				case len(st.exact) > 1:
 					what = "shadowed-action-answered" // name and signature twice: the one declared last is the answer
 				case l.K == "m" && mlSig(e.Ret) != a.Ret:
 					what = "reports-another-return-signature"
 				case l.Code[0].E != "ok":
 					what = "answers-where-an-error-is-due"
-				case len(named) > 1:
+				case len(st.named) > 1:
 					what = "answers-another-overload"
 				}
 			}
-			if !reported[what] {
-				reported[what] = true
-				want := []string{}
+			if !st.reported[what] {
+				st.reported[what] = true
+				allowed := []string{}
 				for _, x := range l.Code {
-					want = append(want, mlAnsText(x))
+					allowed = append(allowed, mlAnsText(x))
 				}
 				c.j.fail(mlScope(own)+kind+"-lookup/"+what, fmt.Sprintf("%s(%q, %q) on %s: %s; the specification allows %s",
-					map[string]string{"m": "MethodID", "s": "SignalID", "p": "PropertyID"}[l.K], l.Name, mlSig(l.Sig), mlEntriesText(mo, l.K), mlAnsText(a),
-					strings.Join(want, " / ")), cs)
+					fn[l.K], l.Name, mlSig(l.Sig), mlEntriesText(mo, l.K), mlAnsText(a), strings.Join(allowed, " / ")),
+					c.rowCase(r, map[string]interface{}{"ctx": "lookup", "query": l}))
 			}
 		}
+		// a lookup leaves the meta-object as it is
+		if have, _ := mlEntriesOf(&m); len(have) != len(want) {
+			c.j.fail(mlScope(r.Wf)+"lookup-changes-the-meta-object", fmt.Sprintf("%d entries before, %d after", len(want), len(have)), c.rowCase(r, map[string]interface{}{"ctx": "lookup"}))
+		} else if what, text := mlDiff(want, have); what != "" {
+			c.j.fail(mlScope(r.Wf)+"lookup-changes-the-meta-object", what+": "+text, c.rowCase(r, map[string]interface{}{"ctx": "lookup"}))
+		}
+	}
+	for li := range r.Lookups {
+		l, st := &r.Lookups[li], &sts[li]
+		kind := mlKindName[l.K]
 		// allowed by the rendering of the code, not by the intent: the named deviations, observed
-		if len(reported) == 0 {
+		if len(st.reported) == 0 {
 			dev := false
-			for a := range seen {
-				if a != intent {
+			for a := range st.seen {
+				if a != st.intent {
 					dev = true
 				}
 			}
 			if dev {
 				what := "last-chance-answers-an-overload"
-				if intent.E == "ok" {
+				if st.intent.E == "ok" {
 					what = "answer-depends-on-the-map-walk"
 				}
 				c.st["lookups_deviating_from_the_intent"]++
 				c.j.fail("metalookup/outside/"+kind+"-lookup/"+what, fmt.Sprintf("%s(%q, %q) on %s: answers %v in %d repetitions, the intent is %s",
-					map[string]string{"m": "MethodID", "s": "SignalID", "p": "PropertyID"}[l.K], l.Name, mlSig(l.Sig), mlEntriesText(mo, l.K), mlSeenText(seen), c.reps, mlAnsText(intent)),
+					fn[l.K], l.Name, mlSig(l.Sig), mlEntriesText(mo, l.K), mlSeenText(st.seen), c.reps, mlAnsText(st.intent)),
 					c.rowCase(r, map[string]interface{}{"ctx": "lookup", "query": l}))
 			}
-			if len(seen) > 1 {
+			if len(st.seen) > 1 {
 				c.st["lookups_with_several_answers"]++
 			}
 		}
-		if own {
+		if r.Wf && l.Self {
 			c.st["lookups_own"]++
 		}
 		c.st["lookup_vectors"]++
@@ -496,11 +520,12 @@ func (c *mlCtx) full(r *mlRow) {
 			c.j.fail(mlScope(r.Wf)+"full/argument-changed", what+": "+text, cs)
 			return
 		}
-		// the generic object itself must still be what the specification says (a merge that writes into it)
+	}
+	// the generic object itself must still be what the specification says (a merge that writes into it)
+	if c.st["merge_vectors"] == 0 || int(c.st["merge_vectors"])%500 == 0 {
 		gen, _ := mlEntriesOf(&object.ObjectMetaObject)
 		if what, text := mlDiff(mlNormal(c.generic), gen); what != "" {
-			c.j.fail(mlScope(true)+"full/generic-object-"+what, text, cs)
-			return
+			c.j.fail(mlScope(true)+"full/generic-object-"+what, text, c.rowCase(r, map[string]interface{}{"ctx": "full"}))
 		}
 	}
 	c.st["merge_vectors"]++
@@ -508,9 +533,9 @@ func (c *mlCtx) full(r *mlRow) {
 
 func (c *mlCtx) actions(r *mlRow) {
 	mo := c.meta(r)
-	for _, a := range r.Actions {
-		for rep := 0; rep < 2; rep++ {
-			m := mlBuild(mo, c.rnd)
+	for rep := 0; rep < 2; rep++ {
+		m := mlBuild(mo, c.rnd)
+		for _, a := range r.Actions {
 			var name, pname string
 			var err, perr error
 			pn := guarded(func() {
@@ -521,7 +546,7 @@ func (c *mlCtx) actions(r *mlRow) {
 			cs := c.rowCase(r, map[string]interface{}{"ctx": "action", "id": a.Id})
 			if pn != "" {
 				c.j.fail(mlScope(r.Wf)+"action-name/panics", pn, cs)
-				break
+				return
 			}
 			if err != nil {
 				name = ""
@@ -531,11 +556,11 @@ func (c *mlCtx) actions(r *mlRow) {
 			}
 			if name != a.Name {
 				c.j.fail(mlScope(r.Wf)+"action-name/other-name", fmt.Sprintf("ActionName(%d) = %q (%v), the specification: %q", a.Id, name, err, a.Name), cs)
-				break
+				return
 			}
 			if pname != a.Pname {
 				c.j.fail(mlScope(r.Wf)+"action-name/other-property-name", fmt.Sprintf("PropertyName(%d) = %q (%v), the specification: %q", a.Id, pname, perr, a.Pname), cs)
-				break
+				return
 			}
 		}
 	}
@@ -750,12 +775,14 @@ func (c *mlCtx) e2e(r *mlRow) {
 				return got, false
 			}
 		}
-		select { // nothing more
+		// nothing more: the events of one connection arrive in the order of emission, and the last expected one
+		// is the last one emitted, so whatever was sent in between is already here
+		select {
 		case d, ok := <-ch:
 			if ok {
 				got = append(got, d)
 			}
-		case <-time.After(20 * time.Millisecond):
+		case <-time.After(2 * time.Millisecond):
 		}
 		return got, false
 	}
@@ -1001,6 +1028,19 @@ func (c *mlCtx) e2e(r *mlRow) {
 				hung = true
 				fail("unsubscribe-hangs", "the cancel function does not return", op)
 				return
+			}
+		case "getid":
+			var gerr error
+			var back value.Value
+			if !within(mlLimit, func() { back, gerr = objp.Property(value.Uint(op.Byid)) }) {
+				hung = true
+				fail("property-get-hangs", "property does not return", op)
+				return
+			}
+			if gerr != nil {
+				c.j.fail("metalookup/outside/e2e/property-get-by-id-refused", fmt.Sprintf("property(%d): %v (setProperty accepts the id)", op.Byid, gerr), cs(op))
+			} else if back == nil {
+				fail("property-get-differs", "no value and no error", op)
 			}
 		default:
 			hlib.Fatal("unknown operation %q", op.Op)
